@@ -25,8 +25,40 @@ class SimRandom:
 
     __call__ = random            # in case the module did ``from random import random``
 
+    # -- the operating system's entropy pool (random.SystemRandom) ---------------------------------
+    entropy_fail_at = None       # index of the draw at which the entropy read fails (once), or None
+
+    def SystemRandom(self, *a, **k):
+        return _SystemProxy(self)
+
     def uniform(self, a, b):
         return a + (b - a) * self.random()
 
     def __getattr__(self, name):
         raise Unsimulated('random.%s is not simulated' % name)
+
+
+class _SystemProxy:
+    """random.SystemRandom() as seen by the code under test: the same scripted draws, but every draw is a read of the
+    operating system's entropy pool -- a system call, which the simulator may fail (EIO) at a scripted draw."""
+
+    def __init__(self, sim):
+        self._sim = sim
+
+    def random(self):
+        sim = self._sim
+        if sim.entropy_fail_at is not None and sim.i == sim.entropy_fail_at:
+            sim.entropy_fail_at = None
+            sim.entropy_failed = True
+            if sim.log is not None:
+                sim.log.add('entropy-read-fails', sim.i)
+            raise OSError(5, 'simulated failure of the entropy source')
+        return sim.random()
+
+    __call__ = random
+
+    def uniform(self, a, b):
+        return a + (b - a) * self.random()
+
+    def __getattr__(self, name):
+        raise Unsimulated('random.SystemRandom().%s is not simulated' % name)
